@@ -8,6 +8,7 @@ use std::ops::{Range, RangeInclusive};
 use std::path::{Path, PathBuf};
 
 //@include prelude/anyhow.rs
+//@include prelude/tstr_mod.rs
 //@include prelude/regex.rs
 use regex::Regex;
 
@@ -107,10 +108,8 @@ fn v3_loop<'a>(
 verif_map_push(violations, file_path.clone(),
 //@edit rule=ghost after=<<line_character_end, )?);>>
                         proof { reported = Some(line_number as int); }
-//@edit rule=E9 find=<<trimmed_line.as_ptr() as usize - line.as_ptr() as usize>>
-verif_offset_in(trimmed_line, line)
-//@edit rule=E9b find=<<trimmed_line.len()>>
-verif_str_len(trimmed_line)
+//@edit rule=E9 find=<<$a.as_ptr() as usize - $b.as_ptr() as usize>> count=all optional=1
+verif_offset_in($a, $b)
 //@end
 
 } // impl
